@@ -337,7 +337,23 @@ impl Check for CurveFit {
         let smin = svd.singular_values.iter().cloned().fold(f64::INFINITY, f64::min);
         let target: Vec<f64> = if p.model <= 3 { svd.solve(&DVector::from_column_slice(&ys), 1e-14).unwrap().as_slice().to_vec() } else { tr.clone() };
         let pnorm = target.iter().fold(0.0f64, |m, x| m.max(x.abs()));
-        let bound = 20.0 * p.tol.sqrt() / smin + 1e-9 * (1.0 + pnorm);
+        let mut bound = 20.0 * p.tol.sqrt() / smin + 1e-9 * (1.0 + pnorm);
+        if p.model <= 3 && p.start >= 3 {
+            // Starts close to the truth: the documented stopping rule ("the sum of squares changed by at most tol")
+            // can be met at once, and what it implies for the parameters depends on the damping that is still in
+            // force.  For a model linear in its parameters, with A = J^T J, D = diag(A) and mu_i the eigenvalues of
+            // D^-1/2 A D^-1/2, one Marquardt step with damping lambda improves the sum of squares by at least
+            // sum_i mu_i c_i^2 mu_i/(mu_i + lambda) (c = error in the eigenbasis), so "improvement <= tol" gives
+            // |e|_D^2 <= tol sum_i (mu_i + lambda)/mu_i^2.  lambda <= damping x mult (the search may raise it once).
+            let a = jt.transpose() * &jt;
+            let d: Vec<f64> = (0..v).map(|i| a[(i, i)]).collect();
+            let cm = DMatrix::<f64>::from_fn(v, v, |i, j| a[(i, j)] / (d[i] * d[j]).sqrt());
+            let mu = cm.symmetric_eigen().eigenvalues;
+            let lam = p.damping * p.mult;
+            let ed2: f64 = 4.0 * p.tol * mu.iter().map(|m| (m + lam) / (m * m)).sum::<f64>();
+            let dmin = d.iter().cloned().fold(f64::INFINITY, f64::min);
+            bound = bound.max((ed2 / dmin).sqrt());
+        }
         let budget = (200.0 * (p.n + 2 * v * p.n) as f64 * (1.0 + (1.0 / p.tol).log10())) as u64;
         let class = if p.model <= 3 { "linear-model" } else { "generated-data" };
         let mut got: Vec<Option<Vec<f64>>> = vec![];
